@@ -12,6 +12,7 @@ import Driver.C12
 import Driver.C17
 import Driver.C15
 import Driver.Pair
+import Driver.Net
 open Lean Driver
 
 def dispatch (j : Json) : R Json := do
@@ -33,6 +34,7 @@ def dispatch (j : Json) : R Json := do
   | "c17" => Driver.C17.handle op j
   | "c15" => Driver.C15.handle op j
   | "pair" => Driver.Pair.handle op j
+  | "net" => Driver.Net.handle op j
   | "ping" => return obj [("pong", Json.bool true)]
   | _ => throw s!"unknown op prefix {pfx}"
 
